@@ -157,7 +157,8 @@ def run(run, replay=None):
     sizes = [1, 2, 3, 7, 16, 95, 96, 97, 192, 10 ** 6] if quick else list(range(1, 194)) + [10 ** 6]
     jobs = [(data, pads[k::4], sizes) for data in files for k in range(4)]
     # later headers brought to every length around the block size (only files whose content has no '#')
-    later = [(h, total) for h in (1, 2, 3, 4) for total in (list(range(90, 101)) if quick else list(range(60, 200)))]
+    later = [(h, total) for h in (0, 1, 2, 3, 4)
+             for total in (list(range(90, 101)) + list(range(188, 197)) + [288] if quick else list(range(60, 200)) + [287, 288, 289])]
     jobs += [(data, later[k::2], sizes) for data in files[:nsafe] for k in range(2)]
     with ProcessPoolExecutor(max_workers=16) as ex:
         outs = list(ex.map(_work, jobs))
